@@ -88,6 +88,20 @@ func c10Nest(rng *rand.Rand) string {
 				fmt.Fprintf(&b, "%sfor %s := range %s\n%s    print \"f\" %s\n", ind, e, hdr, ind, e)
 				block(ind+"    ", depth-1, true, inFunc, local)
 				fmt.Fprintf(&b, "%send\n", ind)
+			case k == 10 && rng.Intn(2) == 0:
+				// a loop over a string (array, map) cell that the body changes IN PLACE or rebinds: the loop visits the
+				// code points (elements, keys) the value had when the loop started
+				c := fresh("c")
+				switch rng.Intn(3) {
+				case 0:
+					fmt.Fprintf(&b, "%sprint (str2num \"abc\")\n%sfor %s := range errmsg\n%s    print \"e\" %s (str2bool \"%s\") errmsg\n%send\n", ind, ind, c, ind, c, []string{"maybe", "true", "x"}[rng.Intn(3)], ind)
+				case 1:
+					sv := fresh("sv")
+					fmt.Fprintf(&b, "%s%s := \"abcd\"\n%sfor %s := range %s\n%s    print \"e\" %s\n%s    %s = %s + \"!\"\n%s    print (str2num %s)\n%send\n%sprint %s errmsg\n", ind, sv, ind, c, sv, ind, c, ind, sv, c, ind, c, ind, ind, sv)
+				default:
+					av := fresh("av")
+					fmt.Fprintf(&b, "%s%s := [1 2 3]\n%sfor %s := range %s\n%s    print \"e\" %s\n%s    %s = %s + [%s]\n%s    %s[0] = 9\n%send\n%sprint %s\n", ind, av, ind, c, av, ind, c, ind, av, av, c, ind, av, ind, ind, av)
+				}
 			case k == 9 && rng.Intn(2) == 0: // a loop that mutates the map it iterates over
 				m := fresh("mm")
 				e := fresh("e")
